@@ -354,8 +354,35 @@ pub fn refs_mode<const V: u32>(d: &mut Driver<V>, p: &Params, programs: u64, nop
                     let size = 8 * d.rng.range(64, 4000) as usize;
                     d.new_object(m, slot, 0, size, 0, 8, 0, KIND_PLAIN);
                     Driver::<V>::root_set(m, slot, 0);
+                    if st.satb && mmtk::verif::concurrent_work_in_progress(mmtk::<V>()) {
+                        break;
+                    }
                 }
                 crate::QUIET_ALLOC.store(false, std::sync::atomic::Ordering::Relaxed);
+                if st.satb && mmtk::verif::concurrent_work_in_progress(mmtk::<V>()) {
+                    // concurrent marking has just started: pop ready objects and load a weak
+                    // referent inside the marking window (before the next safepoint)
+                    ev(Obj::new("ConcurrentWindow"));
+                    for _ in 0..d.rng.below(4) {
+                        let ps = Some(d.rng.below(ns as u64) as usize);
+                        if !st.pop(d, m, ps) {
+                            break;
+                        }
+                    }
+                    let cands: Vec<usize> = (0..ns)
+                        .filter(|i| {
+                            let r = Driver::<V>::root_get(m, *i);
+                            r != 0
+                                && hdr_of_ref(r).kind == KIND_REF
+                                && *st.strength.get(&id31(r)).unwrap_or(&PHANTOM) != PHANTOM
+                        })
+                        .collect();
+                    if !cands.is_empty() && d.rng.chance(1, 2) {
+                        let a = *d.rng.pick(&cands);
+                        let cs = d.rng.below(ns as u64) as usize;
+                        st.get_referent(m, a, m, cs);
+                    }
+                }
             } else if c < 100 {
                 if want_pressure && !st.pressure_done && opi > nops / 3 {
                     st.pressure_done = true;
